@@ -22,5 +22,114 @@ package swagen31
 //@ ensures once: evcount(validatedSpec) <= old(evcount(validatedSpec))+1
 
 // Validator-tag conversion: safety (C14).
-//@ func BuildSchemaValidationV31 props C14,C11 havocs
+//@ func BuildSchemaValidationV31 props C14,C11
 //@ requires schema != nil
+//@ modifies schema.Format, schema.ExclusiveMinimum, schema.Minimum, schema.ExclusiveMaximum, schema.Maximum, schema.MinLength, schema.MaxLength, schema.Pattern, schema.MinItems, schema.MaxItems, schema.UniqueItems, schema.Enum, any(elems([]*yaml.Node))
+
+// ---- operations (C01), security (C04), parameters (C06): the 3.1 emitters against the same statements as the
+// 3.0 ones (C11). libopenapi's ordered maps are modelled as abstract key/value maps (see DESIGN.md §11.1).
+
+//@ func createOperation props C01,C11,C14
+//@ ensures result != nil && fresh(result)
+//@ ensures result.OperationId == route.OperationId && result.Deprecated != nil && *result.Deprecated == route.Deprecation.Deprecated && result.Description == route.Description
+//@ ensures len(result.Tags) == 1 && result.Tags[0] == def.Tag && len(result.Parameters) == 0 && result.Responses != nil && result.Responses.Codes != nil
+
+//@ func handleRouteParamDeprecation props C06,C14
+//@ requires specParam != nil
+//@ modifies specParam.Deprecated
+//@ ensures specParam.Deprecated == (old(specParam.Deprecated) || routeParam.Deprecation.Deprecated)
+
+// the operation registered for a verb in a path item
+//@ spec opOf(item *v3.PathItem, verb string) *v3.Operation = ite(verb == "GET", item.Get, ite(verb == "POST", item.Post, ite(verb == "PUT", item.Put, ite(verb == "DELETE", item.Delete, ite(verb == "PATCH", item.Patch, ite(verb == "HEAD", item.Head, ite(verb == "OPTIONS", item.Options, item.Trace)))))))
+//@ spec routeVerb31(verb string) bool = verb == "GET" || verb == "POST" || verb == "PUT" || verb == "DELETE" || verb == "PATCH" || verb == "HEAD" || verb == "OPTIONS" || verb == "TRACE"
+//@ spec fullPath(def definitions.ControllerMetadata, route definitions.RouteMetadata) string = common.RemoveDuplicateSlash(def.RestMetadata.Path + route.RestMetadata.Path)
+
+// The operation is registered under the normalised path and the route's verb; the operations already registered
+// under that path for other verbs, and all other paths, are kept.
+//@ func setNewRouteOperation props C01,C11,C14
+//@ requires doc != nil && operation != nil && implies(doc.Paths != nil, doc.Paths.PathItems != nil && doc.Paths.PathItems.OrderedMap != nil)
+//@ modifies doc.Paths, any(v3.PathItem), any(elems(map[string]*v3.PathItem))
+//@ ensures reg: doc.Paths != nil && indom(doc.Paths.PathItems, fullPath(def, route)) && doc.Paths.PathItems[fullPath(def, route)] != nil
+//@ ensures verb: implies(routeVerb31(string(route.HttpVerb)), opOf(doc.Paths.PathItems[fullPath(def, route)], string(route.HttpVerb)) == operation)
+//@ ensures sameItem: implies(old(doc.Paths != nil && indom(doc.Paths.PathItems, fullPath(def, route)) && doc.Paths.PathItems[fullPath(def, route)] != nil), doc.Paths.PathItems[fullPath(def, route)] == old(doc.Paths.PathItems[fullPath(def, route)]))
+//@ ensures others: implies(old(doc.Paths != nil && indom(doc.Paths.PathItems, fullPath(def, route)) && doc.Paths.PathItems[fullPath(def, route)] != nil), forall(v, string, implies(routeVerb31(v) && v != string(route.HttpVerb), opOf(doc.Paths.PathItems[fullPath(def, route)], v) == old(opOf(doc.Paths.PathItems[fullPath(def, route)], v)))))
+//@ ensures paths: implies(old(doc.Paths != nil), doc.Paths == old(doc.Paths) && forall(k, string, implies(k != fullPath(def, route), indom(doc.Paths.PathItems, k) == old(indom(doc.Paths.PathItems, k)) && doc.Paths.PathItems[k] == old(doc.Paths.PathItems[k]))))
+
+// assumed: schema construction by type name (recursion over type names, libopenapi constructors)
+//@ func InterfaceToSchemaV3 trusted
+//@ ensures result != nil
+//@ func ToOpenApiSchemaV3 props C06,C11,C14
+//@ ensures result != nil && fresh(result) && len(result.Required) == 0 && result.Properties == nil && len(result.Enum) == 0
+// assumed: Schema() is a function of the proxy (libopenapi caches the rendered schema)
+//@ ufunc schemaOf(p *base.SchemaProxy) *base.Schema
+//@ extern github.com/pb33f/libopenapi/datamodel/high/base.SchemaProxy.Schema
+//@ ensures result == schemaOf(sp)
+//@ spec documents31(sp *v3.Parameter, p definitions.FuncParam) bool = sp != nil && sp.Name == p.NameInSchema && sp.In == strings.ToLower(string(p.PassedIn)) && sp.Required != nil && *sp.Required == swagtool.IsFieldRequired(p.Validator)
+
+//@ func createRouteParam props C06,C11,C14
+//@ modifies any(base.Schema.Format), any(base.Schema.ExclusiveMinimum), any(base.Schema.Minimum), any(base.Schema.ExclusiveMaximum), any(base.Schema.Maximum), any(base.Schema.MinLength), any(base.Schema.MaxLength), any(base.Schema.Pattern), any(base.Schema.MinItems), any(base.Schema.MaxItems), any(base.Schema.UniqueItems), any(base.Schema.Enum), any(elems([]*yaml.Node))
+//@ ensures result != nil && fresh(result) && documents31(result, param)
+//@ ensures result.Description == param.Description && result.Deprecated == param.Deprecation.Deprecated
+
+//@ func createRequestBodyParam props C06,C11,C14
+//@ modifies any(base.Schema.Format), any(base.Schema.ExclusiveMinimum), any(base.Schema.Minimum), any(base.Schema.ExclusiveMaximum), any(base.Schema.Maximum), any(base.Schema.MinLength), any(base.Schema.MaxLength), any(base.Schema.Pattern), any(base.Schema.MinItems), any(base.Schema.MaxItems), any(base.Schema.UniqueItems), any(base.Schema.Enum), any(elems([]*yaml.Node))
+//@ ensures result != nil && fresh(result) && result.Required != nil && *result.Required == swagtool.IsFieldRequired(param.Validator) && result.Description == param.Description && result.Content != nil && indom(result.Content, "application/json")
+
+//@ func createContentWithSchemaRef props C06,C14
+//@ modifies any(base.Schema.Format), any(base.Schema.ExclusiveMinimum), any(base.Schema.Minimum), any(base.Schema.ExclusiveMaximum), any(base.Schema.Maximum), any(base.Schema.MinLength), any(base.Schema.MaxLength), any(base.Schema.Pattern), any(base.Schema.MinItems), any(base.Schema.MaxItems), any(base.Schema.UniqueItems), any(base.Schema.Enum), any(elems([]*yaml.Node))
+//@ ensures result != nil && fresh(result) && indom(result, "application/json") && forall(k, string, implies(indom(result, k), k == "application/json"))
+
+// assumed: CreateSchemaProxy wraps the given schema and Schema() hands it back
+//@ extern github.com/pb33f/libopenapi/datamodel/high/base.CreateSchemaProxy
+//@ ensures result != nil && fresh(result) && schemaOf(result) == schema
+
+//@ spec formShaped31(rb *v3.RequestBody) bool = rb != nil && rb.Content != nil && rb.Content.OrderedMap != nil && indom(rb.Content, "application/x-www-form-urlencoded") && rb.Content["application/x-www-form-urlencoded"] != nil && rb.Content["application/x-www-form-urlencoded"].Schema != nil && implies(schemaOf(rb.Content["application/x-www-form-urlencoded"].Schema) != nil, schemaOf(rb.Content["application/x-www-form-urlencoded"].Schema).Properties != nil && schemaOf(rb.Content["application/x-www-form-urlencoded"].Schema).Properties.OrderedMap != nil)
+//@ spec formSchema31(rb *v3.RequestBody) *base.Schema = schemaOf(rb.Content["application/x-www-form-urlencoded"].Schema)
+
+// Form fields become properties of one urlencoded object, keyed by their wire name; a required field is listed in
+// `required` under that same name (the statement of the 3.0 emitter).
+//@ func createRequestFormParam props C06,C11,C14
+//@ requires operation != nil
+//@ requires operation.RequestBody == nil || formShaped31(operation.RequestBody)
+//@ modifies operation.RequestBody, any(base.Schema.Format), any(base.Schema.ExclusiveMinimum), any(base.Schema.Minimum), any(base.Schema.ExclusiveMaximum), any(base.Schema.Maximum), any(base.Schema.MinLength), any(base.Schema.MaxLength), any(base.Schema.Pattern), any(base.Schema.MinItems), any(base.Schema.MaxItems), any(base.Schema.UniqueItems), any(base.Schema.Enum), any(elems([]*yaml.Node)), any(base.Schema.Description), any(base.Schema.Required), any(base.Schema.Properties), any(elems([]string)), any(elems(map[string]*base.SchemaProxy)), any(elems(map[string]*v3.MediaType))
+//@ ensures shaped: formShaped31(operation.RequestBody)
+//@ ensures prop: implies(formSchema31(operation.RequestBody) != nil, indom(formSchema31(operation.RequestBody).Properties, param.NameInSchema))
+//@ ensures req: implies(formSchema31(operation.RequestBody) != nil && swagtool.IsFieldRequired(param.Validator), len(formSchema31(operation.RequestBody).Required) >= 1 && formSchema31(operation.RequestBody).Required[len(formSchema31(operation.RequestBody).Required)-1] == param.NameInSchema)
+//@ ensures reqNew: implies(old(operation.RequestBody) == nil && formSchema31(operation.RequestBody) != nil, len(formSchema31(operation.RequestBody).Required) == ite(swagtool.IsFieldRequired(param.Validator), 1, 0))
+//@ ensures reqOld: implies(old(operation.RequestBody) != nil && formSchema31(operation.RequestBody) != nil, operation.RequestBody == old(operation.RequestBody) && len(formSchema31(operation.RequestBody).Required) == old(len(formSchema31(operation.RequestBody).Required)) + ite(swagtool.IsFieldRequired(param.Validator), 1, 0))
+
+// parameters == the method's path/query/header parameters, in signature order (the same positions as in the 3.0
+// document: swagtool.countRouteParams); context parameters never appear; a @Body parameter becomes the request body
+//@ func generateParams props C06,C11,C14
+//@ requires operation != nil && len(operation.Parameters) == 0 && fresh(operation.Parameters) && operation.RequestBody == nil
+//@ requires forall(i, 0, len(route.FuncParams), forall(j, 0, len(route.FuncParams), !(!route.FuncParams[i].IsContext && !route.FuncParams[j].IsContext && route.FuncParams[i].PassedIn == definitions.PassedInBody && route.FuncParams[j].PassedIn == definitions.PassedInForm)))
+//@ modifies operation.Parameters, operation.RequestBody, any(elems(operation.Parameters)), any(base.Schema.Format), any(base.Schema.ExclusiveMinimum), any(base.Schema.Minimum), any(base.Schema.ExclusiveMaximum), any(base.Schema.Maximum), any(base.Schema.MinLength), any(base.Schema.MaxLength), any(base.Schema.Pattern), any(base.Schema.MinItems), any(base.Schema.MaxItems), any(base.Schema.UniqueItems), any(base.Schema.Enum), any(elems([]*yaml.Node)), any(base.Schema.Description), any(base.Schema.Required), any(base.Schema.Properties), any(elems([]string)), any(elems(map[string]*base.SchemaProxy)), any(elems(map[string]*v3.MediaType))
+//@ ensures count: len(operation.Parameters) == swagtool.countRouteParams(route, len(route.FuncParams))
+//@ ensures order: forall(k, 0, len(route.FuncParams), implies(swagtool.isRouteParam(route.FuncParams[k]), documents31(operation.Parameters[swagtool.countRouteParams(route, k)], route.FuncParams[k])))
+//@ loop 0 invariant 0 <= _n && _n <= len(route.FuncParams) && len(operation.Parameters) == swagtool.countRouteParams(route, _n) && (fresh(operation.Parameters) || true)
+//@ loop 0 invariant implies(forall(k, 0, _n, !(!route.FuncParams[k].IsContext && route.FuncParams[k].PassedIn == definitions.PassedInBody)), operation.RequestBody == nil || formShaped31(operation.RequestBody))
+//@ loop 0 invariant forall(k, 0, _n, 0 <= swagtool.countRouteParams(route, k) && swagtool.countRouteParams(route, k) <= swagtool.countRouteParams(route, _n))
+//@ loop 0 invariant forall(k, 0, _n, implies(swagtool.isRouteParam(route.FuncParams[k]), swagtool.countRouteParams(route, k) < swagtool.countRouteParams(route, _n) && documents31(operation.Parameters[swagtool.countRouteParams(route, k)], route.FuncParams[k])))
+
+// ---- security (C04): the statements of the 3.0 emitter over libopenapi's requirement type ----
+//@ func buildSecurityMethod props C04,C11,C14
+//@ ensures err: (result1 != nil) == exists(i, 0, len(securityMethods), !exists(k, 0, len(securitySchemes), securitySchemes[k].SecurityName == securityMethods[i].SchemaName))
+//@ ensures ok: implies(result1 == nil, result0 != nil && fresh(result0) && result0.Requirements != nil && forall(i, 0, len(securityMethods), indom(result0.Requirements, securityMethods[i].SchemaName)))
+//@ ensures single: implies(result1 == nil && len(securityMethods) == 1, result0.Requirements[securityMethods[0].SchemaName] == securityMethods[0].Scopes && forall(n, string, implies(indom(result0.Requirements, n), n == securityMethods[0].SchemaName)))
+//@ loop 0 invariant 0 <= _n && _n <= len(securityMethods) && securityRequirement != nil && fresh(securityRequirement) && securityRequirement.OrderedMap != nil && fresh(securityRequirement.OrderedMap)
+//@ loop 0 invariant forall(i, 0, _n, exists(k, 0, len(securitySchemes), securitySchemes[k].SecurityName == securityMethods[i].SchemaName) && indom(securityRequirement, securityMethods[i].SchemaName))
+//@ loop 0 invariant forall(n, string, implies(indom(securityRequirement, n), exists(i, 0, _n, securityMethods[i].SchemaName == n)))
+//@ loop 0 invariant implies(_n >= 1, securityRequirement[securityMethods[0].SchemaName] == securityMethods[0].Scopes || exists(i, 1, _n, securityMethods[i].SchemaName == securityMethods[0].SchemaName))
+
+//@ spec altDocumented31(m *base.SecurityRequirement, a definitions.RouteSecurity) bool = m != nil && m.Requirements != nil && forall(c, 0, len(a.SecurityAnnotation), indom(m.Requirements, a.SecurityAnnotation[c].SchemaName)) && implies(len(a.SecurityAnnotation) == 1, m.Requirements[a.SecurityAnnotation[0].SchemaName] == a.SecurityAnnotation[0].Scopes && forall(n, string, implies(indom(m.Requirements, n), n == a.SecurityAnnotation[0].SchemaName)))
+//@ spec altDeclared31(schemes []definitions.SecuritySchemeConfig, a definitions.RouteSecurity) bool = forall(c, 0, len(a.SecurityAnnotation), exists(k, 0, len(schemes), schemes[k].SecurityName == a.SecurityAnnotation[c].SchemaName))
+
+//@ func generateOperationSecurity props C04,C11,C14
+//@ requires operation != nil && config != nil
+//@ modifies operation.Security
+//@ ensures own: implies(result == nil && len(route.Security) > 0, len(operation.Security) == len(route.Security) && forall(i, 0, len(route.Security), altDocumented31(operation.Security[i], route.Security[i])))
+//@ ensures dflt: implies(result == nil && len(route.Security) == 0 && config.DefaultRouteSecurity != nil, len(operation.Security) == 1 && operation.Security[0] != nil && operation.Security[0].Requirements != nil && indom(operation.Security[0].Requirements, config.DefaultRouteSecurity.SchemaName) && operation.Security[0].Requirements[config.DefaultRouteSecurity.SchemaName] == config.DefaultRouteSecurity.Scopes)
+//@ ensures none: implies(result == nil && len(route.Security) == 0 && config.DefaultRouteSecurity == nil, len(operation.Security) == 0)
+//@ ensures undeclared: implies(len(route.Security) > 0 && exists(i, 0, len(route.Security), !altDeclared31(config.SecuritySchemes, route.Security[i])), result != nil)
+//@ loop 0 invariant 0 <= _n && _n <= len(routeSecurity) && len(securityRequirements) == _n && fresh(securityRequirements)
+//@ loop 0 invariant forall(i, 0, _n, altDocumented31(securityRequirements[i], routeSecurity[i]) && altDeclared31(config.SecuritySchemes, routeSecurity[i]))
